@@ -163,6 +163,13 @@ func (t *tree5) derive(p *node5, r *rng.R) *node5 {
 		n.l = p.l.Level(n.level)
 	case k == 6:
 		n.step = "Sample"
+		if p.samp != nil && r.Chance(1, 3) {
+			// Sample(nil): the node and everything below it are unsampled again
+			n.step = "Sample(nil)"
+			n.samp = nil
+			n.l = p.l.Sample(nil)
+			break
+		}
 		n.sampler = true
 		n.samp = &cntS5{id: len(t.samps), admit: !r.Chance(1, 6)}
 		t.samps = append(t.samps, n.samp)
